@@ -11,8 +11,10 @@
     offending token; the count error quotes the actual count and bounds (C11 [list_result]); the
     spans of bracket errors are those of the tokens the reference matcher names (C10) and are
     canonical (C03).
-    Not covered by a theorem (correspondence + python oracle): seq_count / end_of_text leaves. *)
-From Tephra Require Import MetricsSpec CLexer LexerFacts Run Peg RunCore RunErrors RunErrors2 LexerOps RunList.
+    end_of_text names the first deliverable token with exactly its span, reports "unrecognised" exactly
+    when nothing is deliverable and the scan stops at a rejected character; seq_count never names a
+    token: its only error is "unrecognised", only on a scan that does not end cleanly (RunErrors3). *)
+From Tephra Require Import MetricsSpec CLexer LexerFacts Run Peg RunCore RunErrors RunErrors2 LexerOps RunList LexerFin RunErrors3.
 
 Theorem C13_one_names_first_token :
   forall m, 1 <= tabw m -> forall t, wf_text t ->
@@ -101,6 +103,30 @@ Theorem C13_boundary_error_quotes_abort_position :
     /\ byte (send es) <= byte (e_start x).
 Proof. exact up_to_boundary_error. Qed.
 Print Assumptions C13_boundary_error_quotes_abort_position.
+
+Theorem C13_end_of_text_names_first_token :
+  forall m, 1 <= tabw m -> forall t, wf_text t ->
+  forall f lx ys c st x s, Inv m t lx ys -> kept (c_filter lx) ys = x :: s ->
+  run (S f) GEot lx c st =
+    (RErr (EUnexpected (c_parse_span lx) (mkspan (e_start x) (e_end x)) ExEot (Some (e_tok x))), st)
+  /\ byte (send (c_parse_span lx)) <= byte (e_start x).
+Proof. exact eot_error. Qed.
+Print Assumptions C13_end_of_text_names_first_token.
+
+Theorem C13_end_of_text_when_nothing_remains :
+  forall m, 1 <= tabw m -> forall t, wf_text t ->
+  forall f lx ys c st, Inv m t lx ys -> kept (c_filter lx) ys = [] ->
+  run (S f) GEot lx c st = if clean t lx ys then (ROk VUnit lx, st) else (RErr (EUnrecognized (c_parse_span lx)), st).
+Proof. exact eot_at_end. Qed.
+Print Assumptions C13_end_of_text_when_nothing_remains.
+
+Theorem C13_seq_count_error :
+  forall m, 1 <= tabw m -> forall t, wf_text t ->
+  forall f ks lx ys c st e st', Inv m t lx ys ->
+  run (S f) (GSeqCount ks) lx c st = (RErr e, st') ->
+  e = EUnrecognized (c_parse_span lx) /\ clean t lx ys = false /\ st' = st.
+Proof. exact seq_count_error. Qed.
+Print Assumptions C13_seq_count_error.
 
 (** concrete: both(one a, any[b]) on "a  c": the error span is that of "c" (bytes 3..4), the
     parse-so-far span is that of "a" (0..1) *)
